@@ -531,6 +531,8 @@ class MQTTProtocol(MQTTBaseProtocol):
             raise MQTTWindowError("subscription requests exceeded limit", self._window)
         if not isinstance(request.topics, list):
             raise TopicTypeError(type(request.topics))
+        if len(request.topics) == 0:
+            raise ValueError("at least one topic is required")    # [MQTT-3.8.3-3]
         for (topic, qos) in request.topics:
             if not ( 0<= qos < 3):
                 raise QoSValueError("subscribe", qos)
@@ -545,6 +547,8 @@ class MQTTProtocol(MQTTBaseProtocol):
             raise MQTTWindowError("unsubscription requests exceeded limit", self._window)
         if not isinstance(request.topics, list):
             raise TopicTypeError(type(request.topics))
+        if len(request.topics) == 0:
+            raise ValueError("at least one topic is required")    # [MQTT-3.10.3-2]
 
     # --------------------------
     # Helper methods (publisher)
